@@ -501,8 +501,11 @@ def _contains_inacc_test(t):
 
 
 def propagation(ck, rule):
-    """C04.R6: results of arithmetic carry the inaccuracy flag whenever an operand carried it."""
+    """C04.R6: results of arithmetic carry the inaccuracy flag whenever an operand carried it: on every returning path of both wrappers,
+    if the guards say some operand's flag is set the result's flag is stored True; a path that stores nothing has tested every operand
+    and found all flags clear (short-circuit after the first set flag is fine)."""
     prog = ck.prog
+    from ..common import path_literals
     for w in A.wrappers(prog):
         ops = [p for p in w.params if p in ("x", "y", "a", "b")]
         pfs = fpaths(prog, w)
@@ -512,31 +515,39 @@ def propagation(ck, rule):
         for pf in pfs:
             if pf.end != "return" or pf.ret is None:
                 continue
-            rname = pf.ret_stmt.value
-            rd = dotted(rname)
-            # evaluate the operand-flag disjunction guard on this path
-            gs = [g for g in pf.guards if _flag_disjunction(g[2] if g[2] is not None else g[0]) is not None]
-            if not gs:
-                ck.bad(rule, w, "results carry the inaccuracy flag of every operand", "return path without operand-flag test", pf.ret_stmt,
-                       "guards: %s" % ctrl(pf.guards)[-3:])
-                failed = True
-                break
-            g = gs[-1]
-            names = _flag_disjunction(g[2] if g[2] is not None else g[0])
-            if set(names) != set(ops):
-                ck.bad(rule, w, "the propagation test mentions status['inaccuracy'] of every operand (%s)" % ", ".join(ops),
-                       "test mentions only %s: %s" % (sorted(names), src(g[2] if g[2] is not None else g[0])), g[3],
-                       "an operand's inaccuracy is lost in the result")
-                failed = True
-                break
-            if g[1]:
-                sts = [st for st in pf.stores if status_key(st.target) and status_key(st.target)[1] == "inaccuracy"]
-                if len(sts) != 1 or status_key(sts[0].target)[0] != rd or [x[3] for x in sts[0].guards] != [g[3]] \
-                        or not (isinstance(sts[0].value, ast.Constant) and sts[0].value.value is True):
-                    ck.bad(rule, w, "the returned object's inaccuracy flag is raised under the operand test",
-                           "stores %s returned %s" % ([src(s.target) for s in sts], rd), g[3])
+            rd = dotted(pf.ret_stmt.value) if pf.ret_stmt is not None and isinstance(pf.ret_stmt, ast.Return) else None
+            state = {}
+            for t, pol in path_literals([(g[2] if g[2] is not None else g[0], g[1]) for g in pf.guards]):
+                if isinstance(t, ast.Subscript):
+                    sk = status_key(t)
+                    if sk and sk[1] == "inaccuracy" and sk[0] in ops:
+                        state[sk[0]] = pol
+                elif isinstance(t, ast.BoolOp) and isinstance(t.op, ast.Or) and pol:
+                    names = _flag_disjunction(t)
+                    if names and set(names) <= set(ops):
+                        for n_ in names:
+                            state.setdefault(n_, True)     # at least one of them is set
+            sts = [st for st in pf.stores if status_key(st.target) and status_key(st.target)[1] == "inaccuracy"]
+            set_true = [st for st in sts if isinstance(st.value, ast.Constant) and st.value.value is True and (rd is None or status_key(st.target)[0] == rd)]
+            if any(state.values()):
+                if not set_true:
+                    ck.bad(rule, w, "the result carries the inaccuracy flag when an operand carries it", "operand flag %s set but the result's flag is not raised" % [o for o, v in state.items() if v], pf.ret_stmt,
+                           "an operand's inaccuracy is lost in the result")
                     failed = True
                     break
+            else:
+                missing = [o for o in ops if o not in state]
+                if missing:
+                    ck.bad(rule, w, "the propagation test examines status['inaccuracy'] of every operand (%s)" % ", ".join(ops),
+                           "return path that never tests %s" % missing, pf.ret_stmt, "an operand's inaccuracy is lost in the result")
+                    failed = True
+                    break
+                if set_true and not [st for st in set_true if st.depth == 0 and not st.guards] and False:
+                    pass
+            if set_true and not any(state.values()):
+                ck.bad(rule, w, "the wrapper raises the result's inaccuracy flag only on behalf of an operand", "flag raised although no operand flag is set on this path", set_true[0].stmt)
+                failed = True
+                break
             good += 1
         if not failed:
             ck.ok(rule, w, "every returning path (%d) raises the result's inaccuracy flag iff an operand (%s) carries it" % (good, ", ".join(ops)))
